@@ -170,9 +170,14 @@ let run (path : string) =
               if cls <> "err" then mismatch ~case:!case ~step:!step ~field:"bid.result" ~model:("err" ^ zs c) ~impl:cls
             | Base.Panic ->
               if cls <> "panic" then mismatch ~case:!case ~step:!step ~field:"bid.result" ~model:"panic" ~impl:cls));
-        (* "settles completely": a bid message must never panic *)
-        if cls = "panic" then
-          predfail ~case:!case ~step:!step ~pred:"bid_no_panic" ~kf:"none" ~detail:("aid=" ^ aid ^ "_amt=" ^ amt);
+        (* a panicking bid is a refused message (baseapp recovers, the cache context is dropped): the
+           property does not forbid it, so it is NOT a predicate failure by itself - demanding
+           "a bid never panics" was more than C10 states (seen in the thorough tier: a bid whose
+           left-over-collateral value exceeds the remaining debt panics with "negative coin amount"
+           on both the model and the code, and a later bid closes the auction).  A panic the model
+           does not predict is a correspondence mismatch above; the former finding C10-F3 (EVERY
+           closing bid of an external auction panicked) stays covered that way and by corpus case 0. *)
+        if cls = "panic" then bump "bid:panic_observed";
         last_bid := Some (aid, int_of_string who, cls, z twa); last_tick := false
       | "L" :: rest ->
         let o = parse_L rest in
